@@ -779,11 +779,24 @@ func (x *run) applySub(rs *repState, h *bugHandle, bugId string, s *sim.Step) (s
 	}
 	t := rs.r.Wall
 	md := metaOf(s)
+	// The snapshot is looked at before the append only where the step needs it (to pick a target)
+	// and, for the other kinds, in half of the cases: a cached bug that was just re-read from git
+	// (after an eviction or a reopen) has no compiled snapshot yet, and appending to it in that
+	// state is a path of its own.
 	var snap *bug.Snapshot
-	if h.bc != nil {
+	needSnap := s.N%2 == 0
+	switch s.K {
+	case "comment", "title", "status", "label", "forcelabel", "noop":
+	default:
+		needSnap = true
+	}
+	if h.bc == nil {
+		snap = h.b.Compile()
+	} else if needSnap {
 		snap = h.bc.Snapshot()
 	} else {
-		snap = h.b.Compile()
+		snap = &bug.Snapshot{}
+		x.probe("append_without_compiled_snapshot")
 	}
 	preOps := len(snap.Operations)
 	fail := func(err error) (string, error) { return "", err }
